@@ -436,6 +436,31 @@ def namespace_check(step):
             out["problems"].append(["import-eolib", "eolib", f"{type(e).__name__}: {e}"])
             return out
     problems = out["problems"]
+    if step.get("exercise"):
+        # the program has been running for a while: numbers and strings coded both ways, a writer and a reader used,
+        # the helpers of eolib.encrypt and eolib.packet called (a name that rebinds itself on first use shows now)
+        try:
+            with contextlib.redirect_stdout(buf):
+                w = eolib.EoWriter()
+                w.add_char(7); w.add_short(300); w.add_three(70000); w.add_int(20000000)
+                w.add_string("abc"); w.add_byte(0xFF); w.add_encoded_string("xyz")
+                w.string_sanitization_mode = True
+                w.add_fixed_string("a\u00ffb", 5, True)
+                r = eolib.EoReader(w.to_bytearray())
+                r.get_char(); r.get_short(); r.get_three(); r.get_int()
+                r.chunked_reading_mode = True
+                r.get_string(); r.next_chunk(); r.get_encoded_string(); r.slice().get_fixed_string(5, True)
+                eolib.decode_number(eolib.encode_number(12345))
+                text = bytearray(b"hello")
+                eolib.encode_string(text); eolib.decode_string(text)
+                data = bytearray(range(1, 40))
+                eolib.interleave(data); eolib.deinterleave(data); eolib.flip_msb(data); eolib.swap_multiples(data, 3)
+                eolib.server_verification_hash(12345)
+                seq = eolib.PacketSequencer(eolib.SequenceStart.zero())
+                seq.next_sequence(); seq.set_sequence_start(eolib.InitSequenceStart.generate()); seq.next_sequence()
+                eolib.PingSequenceStart.generate(); eolib.AccountReplySequenceStart.generate()
+        except BaseException as e:  # noqa
+            problems.append(["exercise", "eolib", f"ordinary use of the top-level names raised {type(e).__name__}: {e}"])
     # (i) documented modules reachable by attribute access and identical to what the import system resolves.
     # The attribute walks are all done first: importing a module explicitly would bind it on its parent
     # and hide a path that `import eolib` alone had left unbound.
